@@ -95,10 +95,13 @@ var c10Tmpls = []c10Tmpl{
 	{".a, length", "map", "many", false, "union"},
 	{"length, keys", "map", "many", false, "union"},
 	{"., .", "any", "many", false, "union"},
-	{"(., .a) | . == 1", "map", "many", false, "union-root-first"},
-	{"[(., .a)] | length", "map", "1", false, "union-root-first"},
-	{"(., .b) as $x | $x | kind", "map", "many", true, "union-root-first"},
-	{"{\"k\": (., .a) | kind}", "map", "many", false, "union-root-first"},
+	{"(., .[]) | . == 1", "map", "many", false, "union-root-first"},
+	{"(., .[]) | [kind]", "map", "many", false, "union-root-first"},
+	{"(., ..) | length * 10", "map", "many", false, "union-root-first"},
+	{"(., .[]) as $x | [$x | kind]", "map", "many", true, "union-root-first"},
+	{"(., .[]) | {\"k\": kind}", "any", "many", false, "union-root-first"},
+	{"(., .[], .) | [kind] | length", "seq", "many", false, "union-root-first"},
+	{"(., .) | [kind] | length", "any", "many", false, "union-root-first"},
 	{".a == .b", "map", "1", false, "equals"},
 	{". == 1", "any", "1", false, "equals"},
 	{"to_json", "any", "1", false, "encode"},
@@ -192,6 +195,9 @@ func c10PickTmpl(r *rand.Rand, writersOnly bool) c10Tmpl {
 
 // c10Compose occasionally pipes a template into a generic tail or unions two templates of one shape.
 func c10Compose(r *rand.Rand, t c10Tmpl) c10Tmpl {
+	if c10RootCopiesOnly[t.Expr] {
+		return t // kept as written: the recorded deviation is matched on the exact expression
+	}
 	switch r.IntN(8) {
 	case 0:
 		tail := c10Tails[r.IntN(len(c10Tails))]
@@ -203,7 +209,7 @@ func c10Compose(r *rand.Rand, t c10Tmpl) c10Tmpl {
 	case 1:
 		for tries := 0; tries < 20; tries++ {
 			u := c10Tmpls[r.IntN(len(c10Tmpls))]
-			if u.Shape == t.Shape || u.Shape == "any" {
+			if (u.Shape == t.Shape || u.Shape == "any") && !c10RootCopiesOnly[u.Expr] {
 				t.Expr = "(" + t.Expr + "), (" + u.Expr + ")"
 				t.Class = "many"
 				t.Writer = t.Writer || u.Writer
